@@ -37,7 +37,8 @@ FLOORS = {}
 
 def tasks(tier):
     return [("stress formulas", "run_stress", {}), ("cell data", "run_celldata", {}), ("force+moment", "run_force", {}), ("topoints", "run_topoints", {}),
-            ("project", "run_project", {}), ("extrapolate identity", "run_extrapolate", {})]
+            ("project", "run_project", {}), ("extrapolate identity", "run_extrapolate", {}),
+            ("extrapolate quad", "run_extrapolate_source", dict(cell_type="quad")), ("extrapolate hexahedron", "run_extrapolate_source", dict(cell_type="hexahedron"))]
 
 
 def run_stress(col):
@@ -305,4 +306,67 @@ def run_extrapolate(col):
                 bad.append(p)
         col.add("C19.O6", "extrapolation identity %s" % elname.split(":")[1], "sum_q h_q(1/g_p) f(g_q) == f(node_p) for every multilinear f: Gauss-point values are mapped to nodal values (rule and element share their point order)",
                 not bad, "points %s" % bad)
+    finish_info(col, it)
+
+
+def run_extrapolate_source(col, cell_type):
+    """O7: tools.extrapolate evaluated from source on a distorted two-cell mesh with symbolic quadrature-point values of tensor order 0..3"""
+    it = new_interp()
+    F_ = Fraction
+    Mesh = it.get("felupe.mesh._mesh:Mesh")
+    GL = it.get("felupe.quadrature._gauss_legendre:GaussLegendre")
+    Region = it.get("felupe.region._region:Region")
+    ex = it.get("felupe.tools._project:extrapolate")
+    if cell_type == "quad":
+        pts = [[0, 0], [1, 0], [2, F_(1, 3)], [0, 1], [F_(5, 4), 1], [2, F_(3, 2)]]
+        cells = np.array([[0, 1, 4, 3], [1, 2, 5, 4]])
+        elname, dim = "felupe.element._quad:Quad", 2
+    else:
+        pts = [[0, 0, 0], [1, 0, 0], [2, F_(1, 3), 0], [0, 1, 0], [F_(5, 4), 1, 0], [2, F_(3, 2), 0],
+               [0, 0, 1], [1, 0, F_(6, 5)], [2, F_(1, 3), 1], [0, 1, 1], [F_(5, 4), 1, F_(4, 5)], [2, F_(3, 2), 1]]
+        cells = np.array([[0, 1, 4, 3, 6, 7, 10, 9], [1, 2, 5, 4, 7, 8, 11, 10]])
+        elname, dim = "felupe.element._hexahedron:Hexahedron", 3
+    mesh = it.call(Mesh, [npmodel.array(pts, dtype=npmodel.DType("float")), cells, cell_type], {})
+    el = it.call(it.get(elname), [], {})
+    rule = it.call(GL, [], dict(order=1, dim=dim))
+    reg = it.call(Region, [mesh, el, rule], dict(grad=False))
+    inv = it.call_method(rule, "inv", [])
+    ip = npmodel.to_obj(it.getattr(inv, "points"))
+    wq = [P(x) for x in npmodel.to_obj(it.getattr(rule, "weights")).reshape(-1)]
+    npc = cells.shape[1]
+    H = [[P(x) for x in npmodel.to_obj(np.asarray(it.call_method(el, "function", [ip[p_]]))).reshape(-1)] for p_ in range(npc)]  # H[p][q]
+    attached = {}
+    for c in range(cells.shape[0]):
+        for a in range(npc):
+            attached.setdefault(int(cells[c, a]), []).append((c, a))
+    w = "tools/_project.py extrapolate"
+    for shape in ((), (3,), (2, 3), (2, 2, 3)):
+        vals = symarray("V", shape + (npc, cells.shape[0]))
+
+        def nodal(idx, c, a, mean):
+            if mean:
+                return sum((wq[q] * vals[idx + (q, c)] for q in range(npc)), ZERO) * ring.inv(sum(wq, ZERO))
+            return sum((H[a][q] * vals[idx + (q, c)] for q in range(npc)), ZERO)
+
+        for average in (True, False):
+            for mean in (False, True):
+                def chk(shape=shape, vals=vals, average=average, mean=mean):
+                    out = npmodel.to_obj(np.asarray(it.call(ex, [vals.copy(), reg], dict(average=average, mean=mean))))
+                    nrow = len(pts) if average else cells.shape[0] * npc
+                    if out.shape != (nrow,) + shape:
+                        return False, "%s: shape %s, expected %s" % (w, out.shape, (nrow,) + shape)
+                    bad = []
+                    for row in range(nrow):
+                        for idx in np.ndindex(*shape):
+                            if average:
+                                lst = attached[row]
+                                want = sum((nodal(idx, c, a, mean) for c, a in lst), ZERO) * Fraction(1, len(lst))
+                            else:
+                                want = nodal(idx, row // npc, row % npc, mean)
+                            if not is_zero(P(out[(row,) + idx]) - want):
+                                bad.append((row,) + idx)
+                    return not bad, "%s: entries (point, component...) %s" % (w, bad[:5])
+                col.check("C19.O7", "extrapolate %s values%s average=%s mean=%s" % (cell_type, list(shape), average, mean),
+                          "result[p, i, j, ...] == mean over the cells attached to p of sum_q h_q(1/g_a) values[i, j, ..., q, c] (a: local number of p in c; mean=True: the "
+                          "weighted cell mean instead); average=False: one row per cell corner, unaveraged", chk)
     finish_info(col, it)
